@@ -38,7 +38,7 @@ class ControlRequestHandler(USBRequestHandler):
                 m.d.usb  += expecting_ack.eq(1)
 
         # If the host issues a new token, it has moved on without ACKing our ZLP.
-        with m.If(self.interface.tokenizer.new_token):
+        with m.If(self.interface.tokenizer.new_token | self.interface.setup.received):
             m.d.usb += expecting_ack.eq(0)
 
         # Accept the relevant value after the packet is ACK'd. Handshake packets carry no
